@@ -14,11 +14,13 @@ def run(ctx):
         if r.violation:
             raise vlib.MachineryError("RetryModel.tla violates %s" % r.violation)
     lat = {"module": "GenLatency.tla", "cfg": "GenLatency.cfg", "name": "latency"}
+    # single-request deep paths: retransmissions, late answers to earlier transmissions, further deadlines
+    deep = {"module": "Gen_C01.tla", "cfg": "Gen_C01_deep.cfg", "name": "deep"}
     if ctx.quick:
-        gens = [{"module": "Gen_C06.tla", "cfg": "Gen_C06_quick.cfg", "name": "bfs"}, lat]
+        gens = [{"module": "Gen_C06.tla", "cfg": "Gen_C06_quick.cfg", "name": "bfs"}, lat, deep]
     else:
         gens = [{"module": "Gen_C06.tla", "cfg": "Gen_C06_thorough.cfg", "name": "bfs"},
-                {"module": "Gen_C06.tla", "cfg": "Gen_C06_sim.cfg", "name": "sim", "simulate": 2000, "depth": 14}, lat]
+                {"module": "Gen_C06.tla", "cfg": "Gen_C06_sim.cfg", "name": "sim", "simulate": 2000, "depth": 14}, lat, deep]
     simlib.engine_check(ctx, gens, FACETS, labels=LABELS, selftests=mutators.RETRY)
     extra(ctx)
 
